@@ -566,8 +566,9 @@ class History:
         self.entry_path = None          # script cache entry (found by scanning the data dir)
         self.entry_stamp = None         # st_mtime_ns we gave it last
         self.entry_corrupt = None       # (how, arg, bytes) while our corruption is still in place
-        self.codes = {}                 # text -> dict(file, stamp, corrupt, written_mode)
-        self.code_files = {}            # cache file -> text
+        self.code_of = {}               # (text, mode) -> cache file, once learned
+        self.files = {}                 # cache file -> dict(text, file, stamp, corrupt, written_mode)
+        self.guesses = {}               # file name xonsh's functions give -> text
         self.refs = {}
         self.nref = 0
 
@@ -746,7 +747,8 @@ class History:
 
     def spelling(self):
         if self.backend == "proc" and self.rel:
-            return os.path.relpath(self.script, self.root)
+            r = os.path.relpath(self.script, self.root)
+            return "./" + r if r.startswith("-") else r
         return self.script
 
     def reference(self, key, make):
@@ -886,35 +888,73 @@ class History:
                                                                    if cond.startswith("corrupt") else cond))
 
     # -- code strings ---------------------------------------------------------------------------
-    def code_entry(self, text):
+    # The cache file of a (text, mode) is *learned* by watching the code store (new file after a cached
+    # run); until then the name xonsh's own functions give for the text is used as a guess.  State
+    # (logical mtime, corruption, mode it was compiled for) is kept per file, because one file may serve
+    # several (text, mode) pairs.
+    def code_listing(self):
+        out = set()
+        root = os.path.join(self.data, "xonsh_code_cache")
+        for dp, dn, fn in os.walk(root):
+            for f in fn:
+                out.add(os.path.join(dp, f))
+            for d in list(dn):
+                if d.endswith(CACHE_TAG):       # our own "dir" corruption
+                    out.add(os.path.join(dp, d))
+        return out
+
+    def code_guess(self, text):
         cc = _state["cc"]
-        info = self.codes.get(text)
+        f = cc.get_cache_filename(cc.code_cache_name(text), code=True)
+        if os.path.commonpath([f, self.data]) != self.data:
+            self.bad("entry-outside-data-dir", "code %r is cached at %r, outside $XONSH_DATA_DIR %r" % (text, f, self.data))
+        other = self.guesses.setdefault(f, text)
+        if other != text:
+            self.bad("code-entry-shared", "two different code strings share the cache file %r: %r and %r" % (f, other, text))
+        return f
+
+    def file_info(self, f, text):
+        info = self.files.get(f)
         if info is None:
-            f = cc.get_cache_filename(cc.code_cache_name(text), code=True)
-            if os.path.commonpath([f, self.data]) != self.data:
-                self.bad("entry-outside-data-dir", "code %r is cached at %r, outside $XONSH_DATA_DIR %r" % (text, f, self.data))
-            other = self.code_files.get(f)
-            if other is not None and other != text:
-                self.bad("code-entry-shared", "two different code strings share the cache file %r: %r and %r" % (f, other, text))
-            self.code_files[f] = text
-            info = self.codes[text] = {"text": text, "file": f, "stamp": None, "corrupt": None, "written_mode": None}
+            info = self.files[f] = {"text": text, "file": f, "stamp": None, "corrupt": None, "written_mode": None}
+        elif info["text"] != text:
+            self.bad("code-entry-shared", "two different code strings share the cache file %r: %r and %r" % (f, info["text"], text))
         return info
+
+    def code_entry(self, text, mode):
+        f = self.code_of.get((text, mode))
+        if f is None:
+            g = self.code_guess(text)
+            if os.path.lexists(g):
+                f = g
+        if f is None:
+            return {"text": text, "file": None, "stamp": None, "corrupt": None, "written_mode": None}
+        return self.file_info(f, text)
+
+    def learn_code_file(self, text, mode, before):
+        if (text, mode) not in self.code_of:
+            new = sorted(self.code_listing() - before)
+            g = self.code_guess(text)
+            if len(new) == 1:
+                self.code_of[(text, mode)] = new[0]
+            elif os.path.lexists(g) and not new:
+                self.code_of[(text, mode)] = g
+        return self.code_entry(text, mode)
 
     def op_code(self, op):
         st = _state
         cc, ex = st["cc"], st["ex"]
         mode, sw = op["mode"], list(op["sw"])
         text = render_code(op["kind"], op["tok"])
-        info = self.code_entry(text)
+        if self.backend == "proc":
+            op["mode"] = mode = pmode = "exec" if mode == "exec" else "single"
+        info = self.code_entry(text, mode)
         cond = self.entry_condition(info["file"], info["corrupt"], info["stamp"], False)
         on = use_cache_formula(sw, mode)
         if F3 in self.open and cond == "fresh" and info["written_mode"] not in (None, mode) and (sw[1] or sw[3]):
             return self.exclude(F3)
+        before = self.code_listing()
         if self.backend == "proc":
-            pmode = "exec" if mode == "exec" else "single"
-            op["mode"] = mode = pmode
-            if F3 in self.open and cond == "fresh" and info["written_mode"] not in (None, mode) and (sw[1] or sw[3]):
-                return self.exclude(F3)
             if pmode == "single":
                 args, stdin_text = ["-c", text], None
             else:
@@ -936,6 +976,7 @@ class History:
         corrupt = info["corrupt"]
         if not same_obs(obs, ref):
             self.fail_run(op, obs, ref, cond, corrupt, info)
+        info = self.learn_code_file(text, mode, before)
         info["stamp"], rewritten = self.stamp(info["file"], info["stamp"])
         if rewritten:
             info["corrupt"] = None
@@ -949,7 +990,7 @@ class History:
     def op_corrupt(self, op):
         how, arg = op["how"], op.get("arg")
         if op.get("target") == "code":
-            info = self.code_entry(render_code(op["kind"], op["tok"]))
+            info = self.code_entry(render_code(op["kind"], op["tok"]), op.get("mode", "single"))
             path = info["file"]
         else:
             info = None
@@ -967,6 +1008,13 @@ class History:
         if how == "undo-dir" or path is None or not os.path.isfile(path) or os.path.islink(path):
             self.lab("corrupt:no-entry")
             return self.ops.pop()
+        if not os.access(path, os.R_OK):
+            # our own earlier chmod 000: the permissions are repaired before the next corruption
+            os.chmod(path, 0o600)
+            if info is None:
+                self.entry_corrupt = None
+            else:
+                info["corrupt"] = None
         with open(path, "rb") as f:
             current = f.read()
         noop = False
@@ -984,11 +1032,12 @@ class History:
         if how == "chmod0":
             if F2 in self.open:
                 return self.exclude(F2)
+            if not _state["perm"] or self.backend == "proc":
+                # child processes of root regain CAP_DAC_OVERRIDE: the class would be trivial there
+                self.lab("corrupt:chmod0-not-enforceable")
+                return self.ops.pop()
             os.chmod(path, 0)
             new = current
-            if not _state["perm"] or self.backend == "proc":
-                self.lab("corrupt:chmod0-not-enforced")
-                noop = True
         elif how == "dir":
             os.remove(path)
             os.mkdir(path)
@@ -1244,7 +1293,7 @@ def trunc_bases(tier):
             c = {"op": "code", "kind": k, "tok": "c1", "mode": m, "sw": ALL_ON}
             prime = [{"op": "init", "path": ["script.xsh"]}, dict(c)]
             out.append(("code:%s:%s" % (k, m), prime,
-                        {"op": "corrupt", "target": "code", "kind": k, "tok": "c1", "how": "trunc"}, dict(c)))
+                        {"op": "corrupt", "target": "code", "kind": k, "tok": "c1", "mode": m, "how": "trunc"}, dict(c)))
     return out
 
 
@@ -1270,7 +1319,7 @@ def worker_trunc(arg):
             continue
         try:
             if cor.get("target") == "code":
-                path = h.code_entry(render_code(cor["kind"], cor["tok"]))["file"]
+                path = h.code_entry(render_code(cor["kind"], cor["tok"]), cor["mode"])["file"]
             else:
                 path = h.find_entry()
             if path is None or not os.path.isfile(path):
@@ -1419,7 +1468,8 @@ def make_machine(backend):
             c = {"op": "code", "kind": k, "tok": t, "mode": m, "sw": list(sw)}
             if prime:
                 self.do(dict(c, sw=list(ALL_ON)))
-            self.do({"op": "corrupt", "target": "code", "kind": k, "tok": t, "how": how[0], "arg": how[1]}, dict(c))
+            self.do({"op": "corrupt", "target": "code", "kind": k, "tok": t, "mode": m, "how": how[0], "arg": how[1]},
+                    dict(c))
 
     return CacheMachine
 
@@ -1520,7 +1570,7 @@ def main(run):
     nprocs = 10 if quick else 16
     n_in, n_proc, n_tr = (6, 3, 2) if quick else (11, 3, 4)
     per_in = run.n(180, 2500)
-    per_proc = run.n(4, 70)
+    per_proc = run.n(4, 60)
     tasks = []
     for w in range(n_proc):
         tasks.append(("machine", ("proc", common.worker_seed(run.seed, 50 + w), per_proc, 9,
